@@ -13,9 +13,16 @@
 //!   deadline is the only one in the system.
 //! * once `DTLSConn::new` has returned, its handshake state machine is gone: a server never
 //!   re-sends its final flight (CCS+Finished) however often the client retransmits Finished
-//!   (`handshake()` returns at the first `Finished` state; `finish()` is unreachable). A history
-//!   in which that flight never reaches rustrtc cannot converge and is attributed to the reference.
-use crate::dtls_sim::{HFault, HsObs, split_datagram, split_datagram_n};
+//!   (`handshake()` returns at the first `Finished` state; `finish()` is never entered for a fresh
+//!   handshake). A history in which that flight never reaches rustrtc cannot converge and is
+//!   attributed to the reference by C11's oracle (counted, not reported).
+//! * it runs the RFC 6347 4.1.2.6 anti-replay window (64) on every record, epoch 0 included, and
+//!   gives every retransmitted record a fresh sequence number. rustrtc does neither, which is
+//!   why only these pairs see what a verbatim retransmission does to a checking peer.
+//! * randomness (hello random, 20-byte cookie of fixed length, ECDHE key, ECDSA nonce) supplies
+//!   values only; its `select!`s draw from the runtime's seeded RNG. Executions replay with
+//!   identical trace hashes, so the explorer's determinism requirement stays on for these plans.
+use crate::dtls_sim::{HFault, HsObs, split_datagram_n};
 use crate::explore::Chooser;
 use crate::sim::{self, Dgram, End, EndCfg, NetTx, Side};
 use crate::wire;
@@ -26,6 +33,7 @@ use dtls::config::{ClientAuthType, Config, ExtendedMasterSecretType};
 use dtls::conn::DTLSConn;
 use dtls::crypto::Certificate as RefCertificate;
 use dtls::extension::extension_use_srtp::SrtpProtectionProfile;
+use rustrtc::transports::PacketReceiver;
 use rustrtc::transports::dtls::DtlsState;
 use sha2::{Digest, Sha256};
 use std::net::SocketAddr;
@@ -181,10 +189,13 @@ impl RefEnd {
     }
 }
 
-/// The reference's configuration: the WebRTC one (what webrtc-rs itself uses for a peer
-/// connection) — ECDHE-ECDSA-AES128-GCM-SHA256, both SRTP profiles rustrtc offers, extended
-/// master secret requested, the client certificate required, chain verification off and the
-/// peer certificate pinned by fingerprint through `verify_peer_certificate` instead.
+/// The reference's configuration: ECDHE-ECDSA-AES128-GCM-SHA256, both SRTP profiles rustrtc
+/// offers, extended master secret requested, chain verification off and the peer certificate
+/// pinned by fingerprint through `verify_peer_certificate` instead (called whenever the peer
+/// presents one). The server role does NOT request a client certificate: rustrtc's client
+/// ignores CertificateRequest and sends neither Certificate nor CertificateVerify (that is the
+/// known C02 finding, not a fault-history matter), so with `RequireAnyClientCert` even the
+/// fault-free handshake ends in the reference's fatal alert and nothing could be explored.
 /// `flight_interval` stays at its 1 s default (constant); there is no other timer to set.
 fn ref_config(expected_peer_fp: String, shared: Arc<parking_lot::Mutex<RefShared>>) -> Config {
     Config {
@@ -192,7 +203,7 @@ fn ref_config(expected_peer_fp: String, shared: Arc<parking_lot::Mutex<RefShared
         cipher_suites: vec![CipherSuiteId::Tls_Ecdhe_Ecdsa_With_Aes_128_Gcm_Sha256],
         srtp_protection_profiles: vec![SrtpProtectionProfile::Srtp_Aead_Aes_128_Gcm, SrtpProtectionProfile::Srtp_Aes128_Cm_Hmac_Sha1_80],
         extended_master_secret: ExtendedMasterSecretType::Request,
-        client_auth: ClientAuthType::RequireAnyClientCert,
+        client_auth: ClientAuthType::NoClientCert,
         insecure_skip_verify: true,
         verify_peer_certificate: Some(Arc::new(move |raw: &[Vec<u8>], _chains| {
             let ok = raw.first().map(|c| fingerprint_of_der(c) == expected_peer_fp).unwrap_or(false);
@@ -320,6 +331,50 @@ impl Sys {
     }
 }
 
+/// Rewrite the record sequence number of every epoch-0 record of a datagram in place
+/// (`f(record index, old) -> new`). Epoch-0 records are plaintext and unauthenticated.
+fn patch_epoch0_seqs(d: &mut [u8], mut f: impl FnMut(usize, u64) -> u64) {
+    let (mut i, mut idx) = (0usize, 0usize);
+    while i + 13 <= d.len() {
+        let epoch = u16::from_be_bytes([d[i + 3], d[i + 4]]);
+        let len = u16::from_be_bytes([d[i + 11], d[i + 12]]) as usize;
+        if epoch == 0 {
+            let mut b = [0u8; 8];
+            b[2..].copy_from_slice(&d[i + 5..i + 11]);
+            let new = f(idx, u64::from_be_bytes(b)) & 0xffff_ffff_ffff;
+            d[i + 5..i + 11].copy_from_slice(&new.to_be_bytes()[2..]);
+        }
+        i += 13 + len;
+        idx += 1;
+    }
+}
+
+/// Legal re-fragmentation as the *sender* would have done it: the `n` fragments of the first
+/// complete epoch-0 handshake message take consecutive record sequence numbers and every later
+/// epoch-0 record of that sender moves up by `n-1` (the caller adds that to the sender's shift).
+/// `dtls_sim::split_datagram_n` numbers the fragments `seq + 0x1000*k`, which is harmless
+/// between two rustrtc endpoints but pushes the reference's anti-replay window (64) past every
+/// record the sender emits afterwards.
+fn split_renumbered(d: &[u8], n: usize) -> Option<Vec<Vec<u8>>> {
+    let mut parts = split_datagram_n(d, n)?;
+    for (k, p) in parts.iter_mut().enumerate() {
+        if k == 0 {
+            continue;
+        }
+        let last = k == n - 1;
+        patch_epoch0_seqs(p, |idx, seq| {
+            if idx == 0 {
+                seq - 0x1000 * k as u64 + k as u64
+            } else if last {
+                seq + (n as u64 - 1)
+            } else {
+                seq
+            }
+        });
+    }
+    Some(parts)
+}
+
 fn is_final_flight(d: &[u8]) -> bool {
     let recs = wire::dtls_records(d);
     recs.iter().any(|r| r.ctype == 20) && recs.iter().any(|r| r.ctype == 22 && r.epoch >= 1)
@@ -356,6 +411,8 @@ async fn run_inner(cfg: &RefCfg, chooser: &mut Chooser) -> RefObs {
     };
     let mut app_sent = [false, false];
     let mut quiet_since: Option<u64> = None;
+    // epoch-0 record numbers consumed by re-fragmentation, per sender (see split_renumbered)
+    let mut seq_shift = [0u64; 2];
     let mut rustrtc_keys_at_connect: Option<Vec<u8>> = None;
     loop {
         let t = now_ms(start);
@@ -426,7 +483,12 @@ async fn run_inner(cfg: &RefCfg, chooser: &mut Chooser) -> RefObs {
         quiet_since = None;
         obs.datagrams += 1;
         let t = now_ms(start);
+        let mut d = d;
         let src = d.src_side().unwrap_or(Side::A);
+        if seq_shift[src as usize] > 0 {
+            let sh = seq_shift[src as usize];
+            patch_epoch0_seqs(&mut d.data, |_, s| s + sh);
+        }
         let dst = d.dest_side().unwrap_or(Side::B);
         let lab = format!("{}:{}", src.name(), wire::dtls_label(&d.data));
         let is_app = wire::dtls_records(&d.data).iter().all(|r| r.ctype == 23);
@@ -446,7 +508,15 @@ async fn run_inner(cfg: &RefCfg, chooser: &mut Chooser) -> RefObs {
         }
         hash(&format!("{}|{}", t, lab));
         if cfg.record_wire {
-            obs.wire.push((t, lab.clone(), fault.map(|f| f.name()).unwrap_or_default()));
+            // record-layer (epoch.sequence) and handshake message_seq of every record, for reading replays
+            let nums: Vec<String> = wire::dtls_records(&d.data)
+                .iter()
+                .map(|r| {
+                    let ms: Vec<String> = if r.ctype == 22 && r.epoch == 0 { wire::handshake_msgs(&r.body).iter().map(|h| format!("m{}", h.message_seq)).collect() } else { vec![] };
+                    format!("{}.{}{}", r.epoch, r.seq, if ms.is_empty() { String::new() } else { format!("/{}", ms.join(",")) })
+                })
+                .collect();
+            obs.wire.push((t, format!("{lab}  [{}]", nums.join(" ")), fault.map(|f| f.name()).unwrap_or_default()));
         }
         let mut deliver_now: Vec<Dgram> = vec![];
         match fault {
@@ -462,16 +532,18 @@ async fn run_inner(cfg: &RefCfg, chooser: &mut Chooser) -> RefObs {
             }
             Some(HFault::Swap) => held.hold(dst, 1, d.clone()),
             Some(HFault::DelayMs(ms)) => timed.push((t + ms, d.clone())),
-            Some(HFault::Split3Mixed) => match split_datagram_n(&d.data, 3) {
+            Some(HFault::Split3Mixed) => match split_renumbered(&d.data, 3) {
                 Some(parts) => {
+                    seq_shift[src as usize] += 2;
                     for k in [0usize, 2, 1] {
                         deliver_now.push(Dgram { data: parts[k].clone(), from: d.from, to: d.to });
                     }
                 }
                 None => deliver_now.push(d.clone()),
             },
-            Some(HFault::SplitFwd) | Some(HFault::SplitRev) => match split_datagram(&d.data) {
+            Some(HFault::SplitFwd) | Some(HFault::SplitRev) => match split_renumbered(&d.data, 2).map(|mut v| (v.remove(0), v.remove(0))) {
                 Some((d1, d2)) => {
+                    seq_shift[src as usize] += 1;
                     let x1 = Dgram { data: d1, from: d.from, to: d.to };
                     let x2 = Dgram { data: d2, from: d.from, to: d.to };
                     if fault == Some(HFault::SplitFwd) {
